@@ -85,6 +85,7 @@ def plan(tier, seed):
     jobs.append({'space': 'scope', 'tier': tier, 'weight': 5})
     jobs.append({'space': 'restate', 'tier': tier, 'weight': 20})
     jobs.append({'space': 'rewrite', 'tier': tier, 'weight': 20})
+    jobs.append({'space': 'repeated-dir', 'tier': tier, 'weight': 20})
     for lo, hi in core.chunks(512, 16):
         jobs.append({'space': 'transitions', 'lo': lo, 'hi': hi,
                      'tier': tier, 'weight': (hi - lo) * 8})
@@ -198,6 +199,8 @@ def run(job, seed):
         return run_restate(acc, P)
     if job['space'] == 'rewrite':
         return run_rewrite(acc, P)
+    if job['space'] == 'repeated-dir':
+        return run_repeated_dir(acc, P)
     if job['space'] == 'spelling':
         return run_spelling(acc, P)
     if job['space'] == 'filenames':
@@ -587,6 +590,48 @@ def run_restate(acc, P):
             finally:
                 w.destroy()
     acc.sample('restate', {'layers': file_layers})
+    return acc.result()
+
+
+def run_repeated_dir(acc, P):
+    """A policy directory is configured TWICE (by the same name, or once
+    relative and once absolute) with another directory in between: the
+    directories are walked in the configured order each time they are
+    listed, so the one listed last has the last word."""
+    d1_layers = (2, 3, 4, 5)
+    for l1 in d1_layers:
+        defs = {l1: {NAMES[0]: 'role:L%d' % l1}, 8: {NAMES[0]: 'role:L8'},
+                0: {NAMES[0]: 'role:L0'}}
+        for order, want in ((['d1', 'd2[x]', 'd1'], l1),
+                            (['d1', 'd2[x]', 'ABS:d1'], l1),
+                            (['d2[x]', 'd1', 'd2[x]'], 8),
+                            (['ABS:d2[x]', 'd1', 'd2[x]'], 8),
+                            (['d1', 'd1', 'd2[x]'], 8),
+                            (['d1', 'd2[x]'], 8)):
+            w = world.FileWorld()
+            try:
+                layout(w, defs, set(), 'absent')
+                dirs = [w.path(d[4:]) if d.startswith('ABS:') else d
+                        for d in order]
+                enf = P.Enforcer(world.new_conf(w.root, policy_dirs=dirs))
+                enf.register_defaults([P.RuleDefault(NAMES[0], 'role:L0')])
+                acc.ev(len(LAYERS))
+                got = probe(enf, NAMES[0])
+                acc.case('repeated-dir', len(order) > 2)
+                if got != want:
+                    acc.violation(
+                        'repeated-dir|%s|got=%s' % (
+                            '>'.join(d.replace('ABS:', '/') for d in order),
+                            _lname(got)),
+                        'policy_dirs = %r: the definition in effect is that '
+                        'of %s, the configured order says %s' %
+                        (order, _lname(got), _lname(want)),
+                        {'dirs': order, 'd1_layer': l1}, want, got,
+                        'repeated-dir')
+                acc.outcome('repeated-dir-%s' % ('d1' if want != 8 else 'd2'))
+            finally:
+                w.destroy()
+    acc.sample('repeated-dir', {'dirs': ['d1', 'd2[x]', 'd1']})
     return acc.result()
 
 
